@@ -1378,10 +1378,10 @@ func TestVerifC16(t *testing.T) {
 	c.Rule("PRNG histories (HL generator, profile tilted to apps/boxes/assets; online accounts with short keys; closes) on a real ledger storing catchpoint files (reduced-lookback protocols, interval 4/8); the newest files that contain boxes are (a) restored into fresh on-disk ledgers via the real accessor in production order and compared answer by answer with the reference model over [balances round, block round] (+ online history), then fed the producer's next blocks and compared on the next labels; (b) mutated one change at a time (≈75 classes × PRNG-chosen target records: account fields, asset/app resources, boxes incl. the name|value boundary shift, records dropped/duplicated/moved/added, header totals/rounds/digest/counts/version, chunk order and sections, state-proof data, online-account and round-params rows, truncation and bit flips of the tar stream, benign re-encodings) and restored the same way; distinct = (mutation class, record kind, outcome stage)")
 	c.Assume("the block source offered to the restoring node is the producer's real chain (block authenticity is agreement's concern); SHA-512/256 does not collide on the generated inputs; a mutated file that is accepted and yields the identical adopted state is not a violation")
 	hlRegisterProtos()
-	nh := c.N(2, 8)
+	nh := c.N(2, 6)
 	blocks := c.N(50, 90)
-	filesPerHistory := c.N(1, 3)
-	perClass := c.N(2, 6)
+	filesPerHistory := c.N(1, 2)
+	perClass := c.N(2, 5)
 	workers := 8
 	for h := 0; h < nh && c.Violations() < 10; h++ {
 		r := c.Rand(16, uint64(h))
